@@ -45,6 +45,11 @@ def cases(tier, rng):
                     "lossy": bool(rng.random() < 0.25),
                     "steps": int(rng.integers(6, 20)),
                     "seed": int(rng.integers(1 << 30)),
+                    # every other scene builds its boundaries through BoundaryConfig / boundary_objects_from_config
+                    # and hands the config a wave vector with (documented to be unused) non-zero components on the
+                    # axes that are NOT typed "bloch"
+                    "via_config": bool((i + j) % 2),
+                    "stray_k": [float(x) for x in rng.uniform(-4.0, 4.0, size=3)],
                 }
             )
         out.append({"scenes": sc})
@@ -75,6 +80,11 @@ def _scene(sc, tiled):
         if ak["k"] == "wall":
             s["faces"][lo] = {"type": ak["lo"]}
             s["faces"][hi] = {"type": ak["hi"]}
+            if sc.get("via_config"):
+                # BoundaryConfig has no "no boundary object" face type
+                for f_ in (lo, hi):
+                    if s["faces"][f_]["type"] == "none":
+                        s["faces"][f_] = {"type": "pec"}
         elif ak["k"] == "periodic":
             s["faces"][lo] = {"type": "periodic"}
             s["faces"][hi] = {"type": "periodic"}
@@ -83,6 +93,11 @@ def _scene(sc, tiled):
             s["faces"][hi] = {"type": "bloch"}
             bloch[a] = ak["phase"] / (sc["shape"][a] * spacing)
             cplx = cplx or ak["phase"] != 0.0
+    if sc.get("via_config"):
+        s["boundary_api"] = "config"
+        for a, ak in enumerate(sc["axes"]):
+            if ak["k"] != "bloch":
+                bloch[a] = sc["stray_k"][a] / (sc["shape"][a] * spacing)
     s["bloch"] = bloch
     s["complex"] = True if cplx else None
     vol = {"eps": 2.0 if sc["eps_tier"] == "iso" else ([2.0, 3.0, 4.0] if sc["eps_tier"] == "diag" else [2.0, 0.2, 0.1, 0.2, 3.0, 0.3, 0.1, 0.3, 4.0])}
@@ -173,6 +188,7 @@ def _one(sc, r):
         r.branch("axis:" + ak["k"])
     if 1 in sc["shape"]:
         r.branch("size1_axis")
+    r.branch("boundary_api:" + ("config+stray_wave_vector_components" if sc.get("via_config") else "objects"))
     scaleE, scaleH = float(np.abs(Eb).max()), float(np.abs(Hb).max())
     worst = 0.0
     bad = None
